@@ -312,6 +312,12 @@ def exec_irc(spec):
     as_bytes = bool(spec.get('bytes_args')) and ctor != 'WHOIS'
     via = spec.get('via', 'bytes')
     prefix = spec.get('prefix') if ctor == 'Message' else None
+    # a list stands for the (nick, user, host) tuple parsemsg() returns, handed on as it is by relaying code: "no prefix
+    # value can inject a line" is owed for it too; serialising it or a faithful round trip is not (prefix_ok is False)
+    prefix_value = prefix
+    if isinstance(prefix, list):
+        prefix_value = tuple(prefix)
+        prefix = ' '.join(x for x in prefix if x is not None) + ' '
     command = spec.get('command') if ctor == 'Message' else ctor
     strings = [a for a in given if a is not None]
     classes = ['irc:ctor:' + ctor, 'irc:via:' + via]
@@ -319,6 +325,8 @@ def exec_irc(spec):
         classes.append('irc:bytes-args')
     if prefix is not None:
         classes.append('irc:with-prefix')
+    if isinstance(prefix_value, tuple):
+        classes.append('irc:tuple-prefix')
 
     everything = strings + ([prefix] if prefix is not None else []) + ([command] if ctor == 'Message' else [])
     for label, ch in (('CR', '\r'), ('LF', '\n'), ('NUL', '\0'), ('colon', ':'), ('space', ' '), ('utf8', 'é')):
@@ -347,7 +355,7 @@ def exec_irc(spec):
     injection = any(_bad_chars(s) for s in everything)
 
     def desc():
-        return 'ctor=%s command=%r prefix=%r args=%r bytes_args=%d via=%s' % (ctor, command, prefix, given, as_bytes, via)
+        return 'ctor=%s command=%r prefix=%r args=%r bytes_args=%d via=%s' % (ctor, command, prefix_value, given, as_bytes, via)
 
     # ---- construct
     call_args = [a.encode('utf-8') if (as_bytes and a is not None) else a for a in given]
@@ -356,7 +364,7 @@ def exec_irc(spec):
     ev = None
     try:
         if ctor == 'Message':
-            kw = {} if prefix is None else {'prefix': prefix}
+            kw = {} if prefix is None else {'prefix': prefix_value}
             msg = Message(command, *call_args, **kw)
             ev = request(msg)
         else:
@@ -512,7 +520,9 @@ def _irc_strategy(tier):
     one_bad = st.tuples(clean, st.sampled_from(['\r', '\n', '\r\n', '\rQUIT', '\nQUIT :x']), st.sampled_from(['', 'a', ' b'])).map(''.join)
     middle = st.one_of(clean, clean, benign, hostile, one_bad)
     final = st.one_of(clean, spaced, spaced, benign, hostile, one_bad)
-    prefix = st.one_of(st.none(), st.none(), st.sampled_from(['nick', 'nick!user@host', 'irc.example.org', 'é!a@b']), clean, hostile, one_bad)
+    part = st.one_of(st.none(), clean, clean, hostile, one_bad)
+    prefix = st.one_of(st.none(), st.none(), st.sampled_from(['nick', 'nick!user@host', 'irc.example.org', 'é!a@b']), clean, hostile, one_bad,
+                       st.tuples(st.one_of(clean, hostile, one_bad), part, part).map(list))
     command = st.one_of(st.sampled_from(['PRIVMSG', 'NOTICE', 'JOIN', 'QUIT', 'MODE', '001', '433', 'privmsg']), clean, hostile, one_bad)
 
     def ctor_spec(name):
@@ -592,7 +602,7 @@ class C18(Prop):
         'the command slot; tests/protocols marks it xfail)',
         'arguments are str or utf-8 bytes; encoding is the default utf-8',
     )
-    budget = {'quick': (1500, 4), 'thorough': (12000, 16)}
+    budget = {'quick': (1500, 4), 'thorough': (50000, 16)}
     enum_procs = 8
 
     def setup(self):
@@ -658,6 +668,8 @@ class C18(Prop):
             specs.append({'part': 'irc', 'ctor': 'Message', 'command': s, 'prefix': 'nick!u@h', 'args': [], 'bytes_args': 0, 'via': 'bytes'})
             specs.append({'part': 'irc', 'ctor': 'Message', 'command': 'NOTICE', 'prefix': 'srv', 'args': ['#c', s], 'bytes_args': 1, 'via': 'bytes'})
         for s in small:
+            for tup in ([s, 'user', 'host'], ['nick', s, 'host'], ['nick', 'user', s], [s, None, None], ['nick', s, None]):
+                specs.append({'part': 'irc', 'ctor': 'Message', 'command': 'PRIVMSG', 'prefix': tup, 'args': ['#c', 'hello'], 'bytes_args': 0, 'via': 'bytes'})
             specs.append({'part': 'irc', 'ctor': 'Message', 'command': 'PRIVMSG', 'prefix': s, 'args': ['#c', 'hello'], 'bytes_args': 0, 'via': 'component'})
             specs.append({'part': 'irc', 'ctor': 'PRIVMSG', 'args': ['#c', s], 'bytes_args': 0, 'via': 'component'})
             specs.append({'part': 'irc', 'ctor': 'PRIVMSG', 'args': [s, 'hi there'], 'bytes_args': 1, 'via': 'component'})
